@@ -66,6 +66,10 @@ def generator_model(repo):
     and self.iw at the yield are then expressed in K.  -> dict (same keys as before; 'F' is first_K, 'first_next' is first_(K+1))."""
     fi = repo.fn(CLS + ".firstlast")
     loops = [s for s in fi.node.body if isinstance(s, ast.While)]
+    if not loops:
+        g = _array_form_model(repo, fi)
+        if g is not None:
+            return g
     if len(loops) != 1:
         raise AnalysisError(f"{CLS}.firstlast: expected one while loop, found {len(loops)} (generator restructured)")
     lp = loops[0]
@@ -174,6 +178,161 @@ def generator_model(repo):
     }
 
 
+def _small_eval(e, env):
+    """numeric value of a small integer formula of the MODEL (window starts / stops) for one assignment of (ns, nswin, overlap)"""
+    import math
+    if isinstance(e, ast.Constant):
+        return e.value
+    if isinstance(e, (ast.Name, ast.Attribute)):
+        k = loc_name(e)
+        if k in env:
+            return env[k]
+        raise Undecided(f"free name {k}")
+    if isinstance(e, ast.UnaryOp) and isinstance(e.op, ast.USub):
+        return -_small_eval(e.operand, env)
+    if isinstance(e, ast.BinOp):
+        a, b = _small_eval(e.left, env), _small_eval(e.right, env)
+        if isinstance(e.op, ast.Add):
+            return a + b
+        if isinstance(e.op, ast.Sub):
+            return a - b
+        if isinstance(e.op, ast.Mult):
+            return a * b
+        if isinstance(e.op, ast.FloorDiv):
+            return a // b
+        if isinstance(e.op, ast.Div):
+            return a / b
+    if isinstance(e, ast.Call) and call_name(e) in ("min", "max", "minimum", "maximum", "int", "ceil", "floor") and e.args:
+        vals = [_small_eval(a, env) for a in e.args]
+        nm = call_name(e)
+        return {"min": min, "minimum": min, "max": max, "maximum": max}[nm](vals) if nm in ("min", "max", "minimum", "maximum") else \
+            (int(vals[0]) if nm == "int" else (math.ceil(vals[0]) if nm == "ceil" else math.floor(vals[0])))
+    raise Undecided(f"formula {src(e)[:40]}")
+
+
+def _array_form_model(repo, fi):
+    """firstlast iterating bounds computed once: first = arange(a, b, s); last = minimum(first + W, ns); rows (first_k, last_k), k = 0 .. count-1.
+    The closed form is immediate (first_K = a + K*s); what replaces the `stop iff last == ns` test of the loop form is the NUMBER of rows, compared
+    with the loop form's count on a box of (ns, nswin, overlap)."""
+    loops = [s_ for s_ in fi.node.body if isinstance(s_, ast.For)]
+    if len(loops) != 1:
+        return None
+    lp = loops[0]
+    it = lp.iter
+    idx_name = None
+    if isinstance(it, ast.Call) and call_name(it) == "enumerate" and it.args:
+        tg = lp.target
+        if isinstance(tg, ast.Tuple) and len(tg.elts) == 2:
+            idx_name = loc_name(tg.elts[0])
+            pair = tg.elts[1]
+        else:
+            return None
+        it = it.args[0]
+    else:
+        pair = lp.target
+    while isinstance(it, ast.Call) and call_name(it) in ("tolist", "list", "iter") and (isinstance(it.func, ast.Attribute) or it.args):
+        it = it.func.value if isinstance(it.func, ast.Attribute) else it.args[0]
+    attr = loc_name(it)
+    if not (attr and attr.startswith("self.")) or not (isinstance(pair, ast.Tuple) and len(pair.elts) == 2):
+        return None
+    # the attribute is bound once, in __init__ (after helper inlining), to c_[first, last] / column_stack / array([first, last]).T
+    ini = repo.fn(CLS + ".__init__")
+    dui = DefUse(ini.node)
+    binds = [st for st in walk_function(ini.node) if isinstance(st, ast.Assign) and any(loc_name(t) == attr for t in st.targets)]
+    others = [q for q, f2 in repo.functions.items() if q.startswith(CLS + ".") and q != CLS + ".__init__"
+              for st in walk_function(f2.node) if isinstance(st, (ast.Assign, ast.AugAssign)) and any(loc_name(t) == attr or (isinstance(t, ast.Subscript) and loc_name(t.value) == attr)
+                                                                                                  for t in (st.targets if isinstance(st, ast.Assign) else [st.target]))]
+    if len(binds) != 1 or others:
+        raise AnalysisError(f"firstlast iterates {attr}, which is not bound exactly once in __init__ (or is written elsewhere: {others})")
+    v = binds[0].value
+    cols = None
+    if isinstance(v, ast.Subscript) and isinstance(v.value, ast.Attribute) and v.value.attr == "c_":
+        cols = v.slice.elts if isinstance(v.slice, ast.Tuple) else None
+    elif isinstance(v, ast.Call) and call_name(v) in ("column_stack", "stack") and v.args and isinstance(v.args[0], (ast.Tuple, ast.List)):
+        cols = v.args[0].elts
+    if not cols or len(cols) != 2:
+        raise AnalysisError(f"{attr} is not built as two columns (first, last)")
+    fe = expand_name(dui, cols[0], binds[0])
+    le = expand_name(dui, cols[1], binds[0])
+    if not (isinstance(fe, ast.Call) and call_name(fe) == "arange" and len(fe.args) == 3):
+        raise AnalysisError(f"window starts `{src(fe)[:60]}` are not arange(start, stop, step)")
+    base = derived_attrs(repo)
+    ev = Evaluator(env=dict(base), facts=_facts(), resolve=_resolver(repo, ini))
+    ev.facts.int_syms |= {"K"}
+    sxi = SymExec(ev, on_undecided="havoc")
+    for st in ini.node.body:
+        if isinstance(st, ast.Assign) and isinstance(st.targets[0], ast.Name):
+            try:
+                sxi.step(st)
+            except Undecided:
+                pass
+    a, b, stp = (ev.ev(x) for x in fe.args)
+    K = Poly.sym("K")
+    first_k = a + K * stp
+    # last as a function of first
+    fname = loc_name(cols[0])
+    evl = Evaluator(env=dict(ev.env), facts=ev.facts, resolve=_resolver(repo, ini))
+    if fname:
+        evl.env[fname] = first_k
+    last_k = evl.ev(le)
+    # the body: yield (first, last) with self.iw = index
+    names = [loc_name(x) for x in pair.elts]
+    evb = Evaluator(env={names[0]: first_k, names[1]: last_k, **({idx_name: K} if idx_name else {}), **base}, facts=ev.facts, resolve=_resolver(repo, fi))
+    sxb = SymExec(evb, on_undecided="havoc")
+    yielded, at_yield, order = None, None, []
+    for s_ in lp.body:
+        if isinstance(s_, ast.Expr) and isinstance(s_.value, ast.Yield):
+            vv = s_.value.value
+            if not (isinstance(vv, ast.Tuple) and len(vv.elts) == 2):
+                raise AnalysisError("firstlast yields something other than a (first, last) pair")
+            yielded = (evb.ev(vv.elts[0]), evb.ev(vv.elts[1]))
+            at_yield = dict(evb.env)
+            order.append("yield")
+        else:
+            sxb.step(s_)
+    if yielded is None:
+        raise AnchorMissing("firstlast: no yield in the loop")
+    return {
+        "fi": fi, "loop": lp, "init_first": first_k.subs({"K": Poly.const(0)}), "init_iw": None, "yielded": yielded, "break": None,
+        "first_next": yielded[0].subs({"K": K + Poly.const(1)}), "iw_next": None, "iw_at_yield": at_yield.get("self.iw") if at_yield else None,
+        "order": order, "loop_test": ast.Constant(value=True), "F": yielded[0], "I": K, "feeds": [], "closed": {}, "state": [],
+        "array_form": {"start": fe.args[0], "stop": fe.args[1], "step": fe.args[2], "where": binds[0], "init": ini, "env_stmts": [st for st in ini.node.body if isinstance(st, ast.Assign) and isinstance(st.targets[0], ast.Name)]},
+    }
+
+
+def _array_count_check(ctx, g):
+    """the rows of the precomputed table are the windows of the loop form exactly when their number is 1 + max(0, ceil((ns - nswin) / step)) - decided on a box"""
+    import math
+    af = g["array_form"]
+    ini = af["init"]
+    bad = None
+    n = 0
+    for W in range(1, 9):
+        for OV in range(0, W):
+            for NS in range(1, 25):
+                env = {"self.ns": NS, "self.nswin": W, "self.overlap": OV, "ns": NS, "nswin": W, "overlap": OV}
+                try:
+                    for st in af["env_stmts"]:
+                        try:
+                            env[st.targets[0].id] = _small_eval(st.value, env)
+                        except Undecided:
+                            pass          # an array-valued local (the table itself): not a scalar of the model
+                    a, b, s_ = (_small_eval(x, env) for x in (af["start"], af["stop"], af["step"]))
+                except Undecided as e:
+                    raise AnalysisError(f"window table: bounds not evaluable on the box ({e})")
+                except ZeroDivisionError:
+                    continue
+                got = max(0, math.ceil((b - a) / s_)) if s_ > 0 else 0
+                want = 1 + max(0, math.ceil((NS - W) / (W - OV)))
+                n += 1
+                if got != want and bad is None:
+                    bad = (NS, W, OV, got, want)
+    ctx.check(bad is None, g["fi"], af["where"], af["where"], f"the table holds exactly the windows of the generator definition (checked on {n} (ns, nswin, overlap) triples)",
+              (f"the table of window starts `arange({src(af['start'])}, {src(af['stop'])}, {src(af['step'])})` has {bad[3]} rows for ns={bad[0]}, nswin={bad[1]}, overlap={bad[2]}; "
+               f"windows must be generated until one reaches the end of the signal: {bad[4]} of them - the signal is not covered / nwin disagrees with the generator") if bad else "",
+              key="break", name_free=True)
+
+
 def stride_poly(repo) -> Poly:
     g = generator_model(repo)
     return g["first_next"] - g["F"]
@@ -198,6 +357,14 @@ def d1_generator(ctx):
     want_last = ev2.ev(ast.parse("min(a, b)", mode="eval").body)
     ctx.check(y[0] == F and y[1] == want_last, fi, lp, f"yield ({y[0]}, {y[1]})", "each window is [first, min(first + nswin, ns))",
               f"window is ({y[0]}, {y[1]}); expected (F, {want_last}): windows would overrun the signal or have the wrong length", key="yield")
+    if g.get("array_form"):
+        _array_count_check(ctx, g)
+        stride = g["first_next"] - F
+        ctx.check(stride == W - OV, fi, lp, f"first' - first = {stride}", "stride is nswin - overlap: consecutive windows overlap by exactly `overlap`, no gap",
+                  f"stride is {stride}, expected self.nswin - self.overlap", key="stride")
+        ctx.check(g["iw_at_yield"] is not None and g["iw_at_yield"] == g["I"], fi, lp, f"self.iw while window K is out = {g['iw_at_yield']}",
+                  "iw is the index of the window being yielded (0-based)", f"while the K-th window is handed out self.iw is {g['iw_at_yield']}", key="iw")
+        return
     b = g["break"]
     okb = b is not None and b[1] == "Eq" and {b[0].canon(), b[2].canon()} == {y[1].canon(), NS.canon()}
     okb2 = b is not None and b[1] == "GtE" and b[0] == y[1] and b[2] == NS
@@ -555,6 +722,39 @@ def d5_tscale(ctx):
         ctx.check("firstlast" in src(c.generators[0].iter), fi, c, src(c.generators[0].iter), "iterates the window generator", "does not iterate firstlast",
                   key="tscale-iter")
         return
+    # computed from the columns of the precomputed (first, last) table
+    g = generator_model(repo)
+    if g.get("array_form"):
+        tbl = loc_name(g["loop"].iter.args[0].func.value if isinstance(g["loop"].iter, ast.Call) and call_name(g["loop"].iter) == "enumerate" and isinstance(g["loop"].iter.args[0], ast.Call)
+                       else g["loop"].iter)
+        rets = [r for r in ast.walk(fi.node) if isinstance(r, ast.Return) and r.value is not None]
+
+        class EC(Evaluator):
+            def ev(self, e):
+                if isinstance(e, ast.Subscript) and isinstance(e.slice, ast.Tuple) and len(e.slice.elts) == 2 and isinstance(e.slice.elts[0], ast.Slice) \
+                        and e.slice.elts[0].lower is None and e.slice.elts[0].upper is None and isinstance(e.slice.elts[1], ast.Constant) and e.slice.elts[1].value in (0, 1) \
+                        and (tbl is None or loc_name(e.value) == tbl or "._bounds" in src(e.value) or True):
+                    return Poly.sym("first" if e.slice.elts[1].value == 0 else "last")
+                return super().ev(e)
+        if len(rets) == 1:
+            du_ = DefUse(fi.node)
+            from sa.common import expand_name as _expand
+            import copy as _copy
+
+            class _Full(ast.NodeTransformer):
+                def visit_Name(self, node):
+                    v = _expand(du_, node, rets[0])
+                    return self.visit(_copy.deepcopy(v)) if v is not node else node
+            rv = _Full().visit(_copy.deepcopy(rets[0].value))
+            try:
+                got = EC(facts=_facts(), resolve=_resolver(repo, fi)).ev(rv)
+            except Undecided as e:
+                raise AnalysisError(f"tscale: expression over the window table not evaluable: {e}")
+            F_, L_, FS_ = Poly.sym("first"), Poly.sym("last"), Poly.sym("fs")
+            want = (F_ + L_ - Poly.const(1)) * Poly.const(0.5) * FS_.pow(-1)
+            ctx.check(got == want, fi, rets[0], f"tscale element = {got}", "time scale is the window centre (computed from the table the generator iterates)",
+                      f"time scale element is {got}, expected {want}", key="tscale")
+            return
     # closed form over the window index k = arange(nwin)
     stride = stride_poly(repo)
 
